@@ -113,7 +113,7 @@ Proof. intros; unfold parse_xbyterange. apply bind_np; [apply tag_np | intros; a
 Lemma parse_xkey_np : forall l, parse_xkey l <> Panic.
 Proof.
   intros; unfold parse_xkey. apply bind_np; [apply tag_np|]. intros rest _.
-  destruct (str_eqb (trim rest) s_METHOD_NONE); [discriminate|]. apply rmap_np. apply parse_decryption_key_np.
+  destruct (is_method_none (attr_pairs rest)); [discriminate|]. apply rmap_np. apply parse_decryption_key_np.
 Qed.
 Lemma map_attr_np : forall a kv, map_attr a kv <> Panic.
 Proof.
